@@ -61,7 +61,11 @@ func runSolverCtx(parent context.Context, name string, file string, to int, seed
 func (o *Obl) query(extra ...string) string {
 	var sb strings.Builder
 	sb.WriteString("(set-logic ALL)\n")
-	for _, l := range o.ctx.lines[:o.at] {
+	tags := o.ctx.tags
+	for i, l := range o.ctx.lines[:o.at] {
+		if t := tags[i]; t != 0 && o.hist != nil && o.hist.Bit(int(t)) == 0 {
+			continue // emitted on a path that cannot reach this obligation
+		}
 		sb.WriteString(l)
 		sb.WriteByte('\n')
 	}
@@ -82,7 +86,9 @@ func (o *Obl) query(extra ...string) string {
 // another is reported as an engine error by the caller (Verdict "conflict").
 func discharge(o *Obl, cfg *solverCfg, idx int, extra ...string) {
 	file := filepath.Join(cfg.tmp, fmt.Sprintf("q%d.smt2", idx))
-	os.WriteFile(file, []byte(o.query(extra...)), 0o644)
+	qtext := o.query(extra...)
+	o.hasQuant = strings.Contains(qtext, "(forall ")
+	os.WriteFile(file, []byte(qtext), 0o644)
 	if !cfg.keepFiles {
 		defer os.Remove(file)
 	}
@@ -122,7 +128,17 @@ func discharge(o *Obl, cfg *solverCfg, idx int, extra ...string) {
 	start("z3-new", cfg.quickTO)
 	pending := 1
 	others := false
-	timer := time.NewTimer(time.Second)
+	cvc5Started := false
+	if o.hasQuant {
+		// quantified context: cvc5's instantiation is often the faster one, race it from the start
+		start("cvc5", cfg.fallback)
+		pending++
+		cvc5Started = true
+	}
+	timer := time.NewTimer(1500 * time.Millisecond)
+	timer2 := time.NewTimer(4 * time.Second)
+	defer timer2.Stop()
+	extras := false
 	defer timer.Stop()
 	detail := ""
 	sawSat := false
@@ -132,11 +148,19 @@ func discharge(o *Obl, cfg *solverCfg, idx int, extra ...string) {
 		case <-timer.C:
 			if !others {
 				others = true
-				start("cvc5", cfg.fallback)
+				if !cvc5Started {
+					start("cvc5", cfg.fallback)
+					pending++
+				}
 				start("z3", cfg.fallback)
+				pending++
+			}
+		case <-timer2.C:
+			if !extras {
+				extras = true
 				start("z3-new#1", cfg.fallback)
 				start("z3-new#2", cfg.fallback)
-				pending += 4
+				pending += 2
 			}
 		case x := <-ch:
 			pending--
@@ -162,9 +186,12 @@ func discharge(o *Obl, cfg *solverCfg, idx int, extra ...string) {
 			if !others && pending == 0 {
 				// z3-new answered (sat/unknown) within the first second: ask the others too
 				others = true
-				start("cvc5", cfg.fallback)
+				if !cvc5Started {
+					start("cvc5", cfg.fallback)
+					pending++
+				}
 				start("z3", cfg.fallback)
-				pending += 2
+				pending++
 			}
 		}
 	}
